@@ -290,6 +290,10 @@ def r53(ctx: Ctx) -> RuleReport:
             any(isinstance(x, ast.Call) and isinstance(x.func, ast.Attribute) and x.func.attr == 'pop' for x in ast.walk(w))
     strips = [n for n in walk_local(fi.node) if is_strip(n)]
     strip_nodes = {cfg.node_of(s) for s in strips}
+    # ... or a call of a local helper that does the stripping
+    from ..resolve import calls_where
+    for c in calls_where(ctx, fi, lambda f: f.qualname not in ('_configure', '_configure_node') and any(is_strip(x) for x in walk_local(f.node)), depth=1):
+        strip_nodes.add(owner_node(cfg, pm, c))
     main = next((n for n in walk_local(fi.node) if isinstance(n, ast.While) and not is_strip(n) and norm(n.test) == 'data'), None)
     if main is None:
         raise AnalysisError('configure: no `while data:` loop')
